@@ -26,7 +26,7 @@ func (world) Rule(p string) string {
 	case "C24":
 		return "one run = a real babe.VerificationManager over real dot/state BlockState/EpochState/SlotState on the simulated disk inside a synctest bubble; 1-5 sr25519 authorities per epoch derived from tape bytes, epoch configurations drawn per epoch (c in {1/1,1/2,1/4,3/4,1/10,1/200}, SecondarySlots 0/1/2), a short imported base chain spanning epochs 0..2 whose later epochs are announced by NextEpochData/NextConfigData digests (in memory, reloaded after a restart, or persisted); 4-12 blocks (children of genesis or of a base-chain block, in the parent's epoch or the next) are authored either through the node's own lottery (claimSlot) and buildBlockSeal, or by a Byzantine author (secondary claim of a kind the configuration forbids, wrong/out-of-range authority index, another authority's secondary slot, primary claim over the threshold, flipped VRF output/proof bit, flipped seal bit, seal by another authority or an outsider, seal over another header, missing seal/pre-digest/empty digest, VRF made for another epoch or randomness, slot relabelled). Each is passed to VerifyBlock (same object or re-decoded from its SCALE encoding) and the result compared with an independent predicate (own transcript, own threshold in 320-bit floats, own secondary-author formula, own seal check). Non-trivial = at least one block accepted and one rejected; distinct = distinct event-kind sequence. One more behaviour: an item (seal-typed, seal-typed of another engine, or a consensus item) is inserted into the digest AFTER the header was sealed honestly - the seal then no longer covers the header without the seal."
 	case "C27":
-		return "one run = a real dot/state SlotState on the simulated disk inside a synctest bubble. 3 of 4 runs: 8-60 steps of CheckEquivocation(slotNow from the node's clock = bubble clock + skew) for 1-3 signers with identical, conflicting (same number/other root, other number, other digest), late, future and out-of-order headers, header slots concentrated at slotNow, slotNow-1000+-2, the first saved slot +-2 and the stretch the next pruning removes, clock jumps of 1, ~1000, first+2000+-2 and thousands of slots, backward clock corrections, slot numbers near zero, restarts (new SlotState over the same disk), injected write errors/lost acks. 1 of 4 runs: the same oracle observes CheckEquivocation as called by the real VerificationManager.VerifyBlock for honestly authored blocks that are sent once, again (same object or re-decoded) and in conflicting versions. Oracle: reference slot tables (Substrate check_equivocation rules; the side of the exact 1000/2000 bounds is left open by a 4-member family). Non-trivial = at least one proof or one pruning."
+		return "one run = a real dot/state SlotState on the simulated disk inside a synctest bubble. 3 of 4 runs: 8-60 steps of CheckEquivocation(slotNow from the node's clock = bubble clock + skew) for 1-3 signers with identical, conflicting (same number/other root, other number, other digest), late, future and out-of-order headers, header slots concentrated at slotNow, slotNow-1000+-2, the first saved slot +-2 and the stretch the next pruning removes, clock jumps of 1, ~1000, first+2000+-2 and thousands of slots, backward clock corrections, slot numbers near zero, restarts (new SlotState over the same disk), injected write errors/lost acks. 1 of 4 runs: the same oracle observes CheckEquivocation as called by the real VerificationManager.VerifyBlock for honestly authored blocks that are sent once, again (same object or re-decoded) and in conflicting versions, among them blocks whose author's clock is 1, 2 or about 1000/2000/2600 slots ahead of the node's, with pauses of one slot, 2-31 slots or about 1000/2000 slots; in these runs the reference is driven by the slot the node's own clock shows at the moment of the call, whatever the verifier passes down. Oracle: reference slot tables (Substrate check_equivocation rules; the side of the exact 1000/2000 bounds is left open by a 4-member family). Non-trivial = at least one proof or one pruning."
 	}
 	return ""
 }
